@@ -48,7 +48,6 @@ harness!(c09_semiring_multiplicity_linear, 2, {
     assert!(add(a, zero) == a && add(zero, a) == a, "C09 semiring: zero() is not the identity of +");
     assert!(mul(a, one) == a && mul(one, a) == a, "C09 semiring: one() is not the identity of *");
     assert!(mul(a, zero) == zero && mul(zero, a) == zero, "C09 semiring: zero() does not annihilate");
-    assert!(mul(a, b) == mul(b, a), "C09 Multiplicity: * not commutative");
     cov!(a > 1 && b > 1 && c > 1, "non-trivial");
 });
 //@ heavy=1
